@@ -762,6 +762,8 @@ def apply(data, known=None):
             continue
         remaining |= _callees(f) & expanded
     gone = expanded - remaining
+    # helpers whose HIR could not be expanded stay visible to dependence analyses (rules/common.dependence_nodes)
+    data["helper_hir"] = {h: fns[h]["hir"] for h in expanded if hi.bodies.get(h, (None, None))[1] is None}
     data["fns"] = [f for f in data["fns"] if f["path"] not in gone]
     for h in sorted(remaining):
         data["inline_notes"].append("helper %s still has call sites that were not expanded" % h)
